@@ -452,6 +452,11 @@ func SimRunScenario(name string, cfg simrt.Config) *SimResult {
 			// the poller keeps fetching an event it cannot dispatch: the descriptor is still registered
 			// although its slot was released
 			prop, what = "C05", "poller-spins-on-released-slot"
+			if sc.Property == "C11" {
+				// in the poller's own scenarios the same picture is a descriptor whose events are
+				// fetched for ever and never dispatched (its slot is stuck, not released)
+				prop, what = "C11", "poller-spins-on-undispatched-event"
+			}
 		case res.Outcome == "livelock" && strings.Contains(res.Spin, "(*locker).stop"):
 			// a task spins on one of the connection's locks (Close waiting for a flush or a handler to let
 			// go) while nothing else in the system can take a step, no timer is pending and nobody waits
